@@ -137,7 +137,7 @@ def cmd_import(src, name, checks, tier):
 def cmd_run(name, checks, tier):
     dst = os.path.join(SEEDED, name)
     meta = json.load(open(os.path.join(dst, "meta.json")))
-    checks = checks or [meta["property"]]
+    checks = checks or meta.get("checks_to_run") or [meta["property"]]
     d, tree = scratch_copy()
     try:
         rc, out = sh(["patch", "-s", "-p1", "-i", os.path.join(dst, "patch.diff")], cwd=tree)
